@@ -9,6 +9,13 @@ import (
 	"verif/mc/callmc/p1"
 )
 
+// From here on this file presents itself to the runtime under a path with
+// colons in a directory and in the base name (a volume name, a drive
+// letter, a generated file): positions are printed as file:line and parsed
+// back, and only the last colon separates the line.
+//
+//line /verif-virtual/vol:1/p2/p2:gen.go:100
+
 // Where reports the directory and base name of this package's source file
 // exactly as the runtime sees them.
 func Where() (dir, file string) {
